@@ -104,4 +104,57 @@ def noRemove : List Ev → Bool
   | .remove _ :: _ => false
   | .change _ _ :: es => noRemove es
 
+/-- What one event does to "the last valid version of `p` since `p` was last removed". -/
+def sinceStep (parse : Parse) (p : String) (acc : Option (List String)) : Ev → Option (List String)
+  | .remove p' => if p' == p then none else acc
+  | .change p' c =>
+    if p' == p then
+      match parse c with
+      | some nss => some nss
+      | none => acc
+    else acc
+
+/-- What is visible for file `p`: the last valid version written to `p` since `p` was last removed. -/
+def lastValidSinceRemove (parse : Parse) (p : String) (es : List Ev) : Option (List String) :=
+  es.foldl (sinceStep parse p) none
+
+/-! ### configuration reloads
+
+  `Config.watcher` (provider.go) asks the current namespace manager `ShouldReload(newValue)` after every
+  hot reload of the main configuration. Both watchers answer `false` when the configured target is
+  unchanged (the watcher object and everything it remembers is kept) and `true` when it changed (the
+  manager is dropped; the next request builds a new watcher from nothing). -/
+
+inductive CEv where
+  | file (e : Ev)                       -- a file-system event seen by the watcher
+  | reload (sameTarget : Bool)          -- Config.watcher after a hot reload: ShouldReload = !sameTarget
+  deriving Repr, DecidableEq, Inhabited
+
+def lstepC (parse : Parse) (s : LState) : CEv → LState
+  | .file e => lstep parse s e
+  | .reload true => s                   -- target unchanged: the watcher (and its last good versions) is kept
+  | .reload false => []                 -- target changed: a new watcher starts from nothing
+
+def lrunC (parse : Parse) (es : List CEv) : LState := es.foldl (lstepC parse) []
+
+def ostepC (parse : Parse) (s : OState) : CEv → OState
+  | .file e => ostep parse s e
+  | .reload true => s
+  | .reload false => {}
+
+def orunC (parse : Parse) (es : List CEv) : OState := es.foldl (ostepC parse) {}
+
+/-- The file-system events of a history, in order. -/
+def fileEvents : List CEv → List Ev
+  | [] => []
+  | .file e :: es => e :: fileEvents es
+  | .reload _ :: es => fileEvents es
+
+/-- Every configuration reload in the history left the namespace target unchanged. -/
+def unrelatedOnly : List CEv → Bool
+  | [] => true
+  | .file _ :: es => unrelatedOnly es
+  | .reload true :: es => unrelatedOnly es
+  | .reload false :: _ => false
+
 end Keto.W
